@@ -57,8 +57,31 @@ def list_clear(I, st, fv, args, kwargs, ctx):
     return [(st, Conc(None))]
 
 
+def _find_known(I, st, items, x):
+    """index of the first item that is (provably) x among known items; None if undecidable"""
+    for i, it in enumerate(items):
+        same = I.is_same(it, x)
+        if same is True:
+            return i
+        if same is False:
+            continue
+        if I.valid(st, same):
+            return i
+        if I.feasible(st, same):
+            return None
+    return -1
+
+
 def list_index(I, st, fv, args, kwargs, ctx):
     h = st.heap[fv.data["self"].oid]
+    its = h.fields.get("$items")
+    if its is not None:
+        i = _find_known(I, st, its, args[0])
+        if i is None:
+            raise OutOfReach("list.index: identity of items undecided")
+        if i < 0:
+            return [(st, Raise("ValueError"))]
+        return [(st, Conc(i))]
     x = I.term(args[0])
     has = z3.Contains(h.seq, z3.Unit(x))
     out = []
@@ -106,6 +129,53 @@ def list_pop(I, st, fv, args, kwargs, ctx):
         hq.seq = rest
         out.append((q, Sym(x)))
     return out
+
+
+def _set_items(I, h, new):
+    h.fields["$items"] = list(new)
+    terms = [I.term(x) for x in new]
+    h.seq = z3.Empty(vm.SeqV) if not terms else (z3.Unit(terms[0]) if len(terms) == 1 else z3.Concat(*[z3.Unit(t) for t in terms]))
+
+
+def list_remove(I, st, fv, args, kwargs, ctx):
+    h = st.heap[fv.data["self"].oid]
+    its = h.fields.get("$items")
+    if its is not None:
+        i = _find_known(I, st, its, args[0])
+        if i is None:
+            raise OutOfReach("list.remove: identity of items undecided")
+        if i < 0:
+            return [(st, Raise("ValueError"))]
+        new = list(its)
+        new.pop(i)
+        _set_items(I, h, new)
+        return [(st, Conc(None))]
+    x = I.term(args[0])
+    out = []
+    for (q, b) in I.branch(st, z3.Contains(h.seq, z3.Unit(x))):
+        if not b:
+            out.append((q, Raise("ValueError")))
+            continue
+        hq = q.heap[fv.data["self"].oid]
+        pre, post = I.U.fresh_seq("rpre"), I.U.fresh_seq("rpost")
+        q.pc += [hq.seq == z3.Concat(pre, z3.Unit(x), post), z3.Not(z3.Contains(pre, z3.Unit(x)))]
+        hq.seq = z3.Concat(pre, post)
+        out.append((q, Conc(None)))
+    return out
+
+
+def list_setitem(I, st, ov, kv, v, ctx):
+    h = st.heap[ov.oid]
+    its = h.fields.get("$items")
+    if its is not None and isinstance(kv, Conc) and isinstance(kv.py, int):
+        try:
+            new = list(its)
+            new[kv.py] = v
+        except IndexError:
+            return [(st, Raise("IndexError"))]
+        _set_items(I, h, new)
+        return [(st, Conc(None))]
+    raise OutOfReach("list item assignment on symbolic list/index")
 
 
 def list_insert(I, st, fv, args, kwargs, ctx):
@@ -206,6 +276,15 @@ def dict_update(I, st, fv, args, kwargs, ctx):
     return [(st, Conc(None))]
 
 
+def dict_clear(I, st, fv, args, kwargs, ctx):
+    h = st.heap[fv.data["self"].oid]
+    for f in [f for f in h.fields if isinstance(f, tuple) and f[0] == "k"]:
+        del h.fields[f]
+    h.keys = z3.Empty(vm.SeqV)
+    h.ckeys = []
+    return [(st, Conc(None))]
+
+
 def dict_copy(I, st, fv, args, kwargs, ctx):
     r = fv.data["self"]
     h = st.heap[r.oid]
@@ -239,6 +318,10 @@ def install(I):
     L["list.clear"] = list_clear
     L["list.index"] = list_index
     L["list.pop"] = list_pop
+    L["list.remove"] = list_remove
+    L["list.__setitem__"] = lambda I, st, fv, args, kwargs, ctx: list_setitem(I, st, fv.data["self"], args[0], args[1], ctx)
+    L["list.__getitem__"] = lambda I, st, fv, args, kwargs, ctx: I.getitem(st, fv.data["self"], args[0], ctx)
+    L["$list_setitem"] = list_setitem
     L["list.insert"] = list_insert
     L["dict.get"] = dict_get
     L["dict.pop"] = dict_pop
@@ -248,5 +331,6 @@ def install(I):
     L["dict.values"] = dict_values
     L["dict.update"] = dict_update
     L["dict.copy"] = dict_copy
+    L["dict.clear"] = dict_clear
     L["any"] = h_anyall(False)
     L["all"] = h_anyall(True)
